@@ -7,7 +7,13 @@ Objects (`Obj`) are what `assign` can be given and what it meets while descendin
 * `val`    – a plain Amaranth value with a shape: a `Signal`, a `Slice` of a view (unsigned member) or the
              `as_signed()` operator over such a slice (signed member; *not* an "explicit shape" for
              `has_explicit_shape`, assign.py:204-205);
-* `int`    – a Python integer;
+* `int`    – a Python constant: an integer (`en = none`; given by the user, or a plain member of a `data.Const`)
+             or a member of an `enum.Enum` class (`en = some id`; not an `int` for `isinstance`); its value is
+             the `w`-bit pattern `v`, negative when `signed` and the top bit is set;
+* `enumv`  – an `EnumView` (a `Signal` or view member shaped by an `enum.Enum` class): ValueCastable, its shape
+             is the class;
+* `const`  – a `data.Const` over a Struct/Array/Union layout, as the tree of its members (ints, enum members,
+             nested consts); `flds` is the layout as `Layout.__eq__` sees it;
 * `view`   – a `data.View` over a Struct/Array/Union layout, given as the tree of its members, every node
              carrying the bits it occupies (`store` = which signal, `off`, `size`);
 * `dict`, `list` – Python containers of objects;
@@ -33,6 +39,7 @@ abbrev Path := List Key
 mutual
 inductive Layout
   | leaf (w : Nat) (signed : Bool)
+  | enum (w : Nat) (id : Nat)        -- an `amaranth.lib.enum.Enum` class `id` with `shape=w` (an IntEnum is a plain `leaf`)
   | struct (fs : LFields)
   | array (e : Layout) (n : Nat)
   | union (fs : LFields)
@@ -44,6 +51,7 @@ end
 mutual
 def Layout.size : Layout → Nat
   | .leaf w _ => w
+  | .enum w _ => w
   | .struct fs => fs.sum
   | .array e n => n * e.size
   | .union fs => fs.max
@@ -63,8 +71,10 @@ deriving Repr, DecidableEq
 mutual
 inductive Obj
   | val (store off w : Nat) (signed explicit : Bool)
-  | int (v : Nat)
+  | int (v w : Nat) (signed : Bool) (en : Option Nat)
+  | enumv (store off w id : Nat)
   | view (kind : VKind) (store off size : Nat) (ms : Members)
+  | const (kind : VKind) (size value : Nat) (flds : List (Key × Nat × Bool × Nat)) (ms : Members)
   | dict (ms : Members)
   | list (ms : Members)
   | proxy (idx : Nat) (stores : List Nat) (tmpl : Obj)
@@ -98,6 +108,7 @@ def arrayMembers (mk : Nat → Obj) (esz : Nat) : Nat → Nat → Nat → Member
 mutual
 def ofLayout : Layout → (store off : Nat) → (root : Bool) → Obj
   | .leaf w s, store, off, root => fieldObj store off root w s
+  | .enum w id, store, off, _ => .enumv store off w id
   | .struct fs, store, off, _ => .view .struct store off fs.sum (ofStruct fs store off)
   | .array e n, store, off, _ =>
     .view .array store off (n * e.size) (arrayMembers (fun o => ofLayout e store o false) e.size n 0 off)
@@ -108,6 +119,41 @@ def ofStruct : LFields → (store off : Nat) → Members
 def ofUnion : LFields → (store off : Nat) → Members
   | .nil, _, _ => .nil
   | .cons nm l t, store, off => .cons (.name nm) (ofLayout l store off false) (ofUnion t store off)
+end
+
+/-- `Shape.cast(shape)` of a member layout: width and signedness -/
+def Layout.flat : Layout → Nat × Bool
+  | .leaf w s => (w, s)
+  | l => (l.size, false)
+
+/-- the fields of a struct (`union = false`: running offsets) or union (all at 0), as `Layout.__eq__` sees them -/
+def LFields.flds (union : Bool) : LFields → Nat → List (Key × Nat × Bool × Nat)
+  | .nil, _ => []
+  | .cons nm l t, off => (.name nm, l.flat.1, l.flat.2, off) :: t.flds union (if union then off else off + l.size)
+
+/-- members `i, i+1, …` of an array constant: `mk v` = the element whose bits start at bit 0 of `v` -/
+def arrayConsts (mk : Nat → Obj) (esz : Nat) : Nat → Nat → Nat → Members
+  | 0, _, _ => .nil
+  | n + 1, i, v => .cons (.idx i) (mk v) (arrayConsts mk esz n (i + 1) (v >>> esz))
+
+mutual
+/-- `layout.const(…)` whose bits are `v` (bits above the size are ignored): what `Const.__getitem__` returns for
+    a member - a Python int for plain shapes, the enum member for Enum shapes, a `Const` for layouts -/
+def ofConst : Layout → (v : Nat) → Obj
+  | .leaf w s, v => .int (v % 2 ^ w) w s none
+  | .enum w id, v => .int (v % 2 ^ w) w false (some id)
+  | .struct fs, v => .const .struct fs.sum (v % 2 ^ fs.sum) (fs.flds false 0) (constStruct fs v)
+  | .array e n, v =>
+    .const .array (n * e.size) (v % 2 ^ (n * e.size))
+      ((List.range n).map fun i => (.idx i, e.flat.1, e.flat.2, i * e.size))
+      (arrayConsts (fun x => ofConst e x) e.size n 0 v)
+  | .union fs, v => .const .union fs.max (v % 2 ^ fs.max) (fs.flds true 0) (constUnion fs v)
+def constStruct : LFields → (v : Nat) → Members
+  | .nil, _ => .nil
+  | .cons nm l t, v => .cons (.name nm) (ofConst l v) (constStruct t (v >>> l.size))
+def constUnion : LFields → (v : Nat) → Members
+  | .nil, _ => .nil
+  | .cons nm l t, v => .cons (.name nm) (ofConst l v) (constUnion t v)
 end
 
 /-! ## nested `ArrayProxy`s: `arr[i][j][k]` over `Array`s of `Array`s of … of views -/
@@ -208,7 +254,7 @@ deriving Repr, DecidableEq
 
 inductive Src
   | bits (c : Option PCtx) (store off w : Nat) (signed : Bool)
-  | const (v : Nat)
+  | const (v w : Nat) (signed : Bool)     -- the `w`-bit pattern `v`, extended by its sign when `signed`
 deriving Repr, DecidableEq
 
 /-- `lhs_val.eq(rhs_val)`: `dw` bits at `doff` of the destination signal take the source, truncated or
@@ -247,6 +293,10 @@ def argFields (c : Option PCtx) : Obj → Except Err (Option (List Key))
     | some _, .struct => pure (some ms.keys)
     | some _, .union => pure (some ms.keys)
     | some _, .array => pure (some ms.keys)
+  | .const k _ _ _ ms =>                 -- a `data.Const`: Struct and Array layouts have fields, a Union has none
+    match k with
+    | .union => pure none
+    | _ => pure (some ms.keys)
   | .dict ms => pure (some ms.keys)
   | .list ms => pure (some ms.keys)
   | _ => pure none
@@ -265,23 +315,28 @@ def isValueLike : Obj → Bool
   | _ => true
 
 def isInt : Obj → Bool
-  | .int _ => true
+  | .int _ _ _ en => en.isNone            -- an Enum member is not an `int` (an IntEnum member is; it is modelled as one)
   | _ => false
 
 /-- `isinstance(x, ValueCastable)`: a `data.View`, and (Amaranth 0.5) every `ArrayProxy` -/
 def isVC (c : Option PCtx) : Obj → Bool
   | .view _ _ _ _ _ => true
+  | .enumv _ _ _ _ => true
+  | .const _ _ _ _ _ => true
   | _ => c.isSome
 
 /-- `has_explicit_shape` (assign.py:204-205) -/
 def explicit (c : Option PCtx) : Obj → Bool
   | .val _ _ _ _ e => c.isSome || e
   | .view _ _ _ _ _ => true
-  | .int _ => false
+  | .enumv _ _ _ _ => true
+  | .const _ _ _ _ _ => true
+  | .int _ _ _ _ => false
   | _ => c.isSome
 
 def Obj.members : Obj → Members
   | .view _ _ _ _ ms => ms
+  | .const _ _ _ _ ms => ms
   | .dict ms => ms
   | .list ms => ms
   | _ => .nil
@@ -290,6 +345,7 @@ def Obj.members : Obj → Members
 def memberShape : Obj → Nat × Bool × Nat
   | .val _ off w s _ => (w, s, off)
   | .view _ _ off size _ => (size, false, off)
+  | .enumv _ off w _ => (w, false, off)
   | _ => (0, false, 0)
 
 def Members.fieldList (base : Nat) : Members → List (Key × Nat × Bool × Nat)
@@ -301,6 +357,7 @@ def Members.fieldList (base : Nat) : Members → List (Key × Nat × Bool × Nat
 inductive ShapeD
   | flat (w : Nat) (signed : Bool)
   | layout (size : Nat) (fields : List (Key × Nat × Bool × Nat))
+  | enum (id : Nat)
 deriving Repr, DecidableEq
 
 def bitsFor (v : Nat) : Nat := if v = 0 then 1 else Nat.log2 v + 1
@@ -308,7 +365,14 @@ def bitsFor (v : Nat) : Nat := if v = 0 then 1 else Nat.log2 v + 1
 /-- `shape_of` (amaranth_ext/functions.py:144-153) -/
 def shapeOf (c : Option PCtx) : Obj → ShapeD
   | .val _ _ w s _ => .flat w s
-  | .int v => .flat (bitsFor v) false
+  | .int v w sg en =>
+    match en with
+    | some id => .enum id                                   -- `type(value)` (the "hack for enums")
+    | none =>                                                -- `Const(value).shape()`: the minimal shape of the value
+      if sg && v.testBit (w - 1) && 0 < w then .flat (bitsFor (2 ^ w - v - 1) + (if 2 ^ w - v - 1 = 0 then 0 else 1)) true
+      else .flat (bitsFor v) false
+  | .enumv _ _ w id => if c.isSome then .flat w false else .enum id
+  | .const _ size _ flds _ => .layout size flds
   | .view _ _ off size ms => if c.isSome then .flat size false else .layout size (ms.fieldList off)
   | _ => .flat 0 false
 
@@ -316,6 +380,7 @@ def shapeOf (c : Option PCtx) : Obj → ShapeD
 def shapeEq : ShapeD → ShapeD → Bool
   | .flat w s, .flat w' s' => w == w' && s == s'
   | .layout z f, .layout z' f' => z == z' && f.length == f'.length && f.all (· ∈ f')
+  | .enum i, .enum i' => i == i'
   | _, _ => false
 
 /-- the loops at assign.py:203-210: descend through single-member structures -/
@@ -336,13 +401,16 @@ def unwrap (c : Option PCtx) : Obj → Except Err (Obj × Path)
 def srcOf (c : Option PCtx) : Obj → Src
   | .val st off w s _ => .bits c st off w s
   | .view _ st off size _ => .bits c st off size false
-  | .int v => .const v
-  | _ => .const 0
+  | .int v w sg _ => .const v w sg
+  | .enumv st off w _ => .bits c st off w false
+  | .const _ size value _ _ => .const value size false
+  | _ => .const 0 0 false
 
 def flowOf (lc : Option PCtx) (l : Obj) (rc : Option PCtx) (r : Obj) : Flow :=
   match l with
   | .val st off w _ _ => ⟨lc, st, off, w, srcOf rc r⟩
   | .view _ st off size _ => ⟨lc, st, off, size, srcOf rc r⟩
+  | .enumv st off w _ => ⟨lc, st, off, w, srcOf rc r⟩
   | _ => ⟨lc, 0, 0, 0, srcOf rc r⟩
 
 /-- the `else` branch (assign.py:190-223) for already stripped operands -/
